@@ -148,6 +148,22 @@ func registerIntrinsics(e *Engine) {
 		st.VisibleAtomics = args[0].(*smt.Term).IsTrue()
 		return nil, true
 	}
+	// Watch(p): plain loads and stores of the object p points into become scheduling points
+	// (data races on ordinary fields: lost updates, torn multi-step updates).
+	I[nd+"Watch"] = func(e *Engine, st *State, th *Thread, args []Value, call *ssa.CallCommon) (Value, bool) {
+		if ifc, ok := args[0].(Iface); ok {
+			if p, ok := ifc.V.(Ptr); ok && p.Obj != 0 {
+				st.Watched = append(st.Watched[:len(st.Watched):len(st.Watched)], p.Obj)
+				return nil, true
+			}
+		}
+		e.unsupported("nd.Watch needs a non-nil pointer")
+		return nil, true
+	}
+	I[nd+"WatchAll"] = func(e *Engine, st *State, th *Thread, args []Value, call *ssa.CallCommon) (Value, bool) {
+		st.WatchAll = args[0].(*smt.Term).IsTrue()
+		return nil, true
+	}
 	// AdvanceClock(n): time passes (n seconds of the concrete clock).
 	I[nd+"AdvanceClock"] = func(e *Engine, st *State, th *Thread, args []Value, call *ssa.CallCommon) (Value, bool) {
 		n := args[0].(*smt.Term)
